@@ -951,51 +951,13 @@ func c20More(p *Prog, r *Report, sfs []sideFile) {
 			r.Unk("C20.R2", "UNPAUSE with a label: the label test precedes every successful return", p.Pos(wc.Pos()), "the UNPAUSE arm of the write-control function was not found (no prefix test for UNPAUSE and no store clearing the paused flag)")
 			return
 		}
-		lenTest := func(in ssa.Instruction) bool {
-			iff, ok := in.(*ssa.If)
-			if !ok {
-				return false
-			}
-			bo, ok := iff.Cond.(*ssa.BinOp)
-			if !ok {
-				return false
-			}
-			for _, side := range []ssa.Value{bo.X, bo.Y} {
-				if c, isCall := side.(*ssa.Call); isCall {
-					if b, isB := c.Call.Value.(*ssa.Builtin); isB && b.Name() == "len" {
-						if _, f, _, okf := FieldOf(c.Call.Args[0]); okf && f == "Request" {
-							return true
-						}
-					}
-				}
-			}
-			return false
-		}
+		lenTest := c20IsLabelTest
 		esc := ReachAvoiding(wc, nil, lenTest, func(in ssa.Instruction) bool { return in == unpause })
 		r.Check(len(esc) == 0, "C20.R2", "UNPAUSE with a label: the label test precedes every successful return", p.InstrPos(unpause), "the paused flag is cleared only after the test of the request's length",
 			"the UNPAUSE arm can report success without having looked for a label: an accepted `UNPAUSE <label>` then leaves no line in the experiment-state file")
 		return
 	}
-	isLabelTest = func(in ssa.Instruction) bool {
-		iff, ok := in.(*ssa.If)
-		if !ok {
-			return false
-		}
-		bo, ok := iff.Cond.(*ssa.BinOp)
-		if !ok {
-			return false
-		}
-		for _, side := range []ssa.Value{bo.X, bo.Y} {
-			if c, isCall := side.(*ssa.Call); isCall {
-				if b, isB := c.Call.Value.(*ssa.Builtin); isB && b.Name() == "len" {
-					if _, f, _, okf := FieldOf(c.Call.Args[0]); okf && f == "Request" {
-						return true
-					}
-				}
-			}
-		}
-		return false
-	}
+	isLabelTest = c20IsLabelTest
 	// walk from the first instruction of the arm
 	esc := reachFromBlock(arm, isLabelTest, func(in ssa.Instruction) bool {
 		ret, ok := in.(*ssa.Return)
@@ -1011,6 +973,115 @@ func c20More(p *Prog, r *Report, sfs []sideFile) {
 	}
 	r.Check(len(esc) == 0, "C20.R2", "UNPAUSE with a label: the label test precedes every successful return", pos, "every nil return of the UNPAUSE arm has passed the test of the request's length",
 		"the UNPAUSE arm can report success without having looked for a label: an accepted `UNPAUSE <label>` then leaves no line in the experiment-state file")
+	// the label that is recorded is the client's text: a part of the request as it came, not of
+	// a copy that was changed for recognising the keyword
+	if outer := p.Func("", wsT, "SetExperimentStateLabel"); outer != nil {
+		Instrs(wc, func(in ssa.Instruction) {
+			cc := CallOf(in)
+			if cc == nil || len(cc.Args) == 0 {
+				return
+			}
+			callee := cc.StaticCallee()
+			if callee == nil || !(callee == outer || callee.Name() == "SetExperimentStateLabel") {
+				return
+			}
+			label := cc.Args[len(cc.Args)-1]
+			key := "UNPAUSE with a label: the label recorded is the text the client sent"
+			from, altered := c20ReqDeriv(label, 0)
+			switch {
+			case from && altered == "":
+				r.OK("C20.R2", key, p.InstrPos(in), "a part of the request, unchanged")
+			case from:
+				r.Bad("C20.R2", key, p.InstrPos(in), "the label handed to the experiment-state file is cut out of a copy of the request that went through "+altered+": the line written (and the state reported to clients) carries a changed text, not the label the client asked for")
+			default:
+				r.Unk("C20.R2", key, p.InstrPos(in), "the label could not be traced to the request text")
+			}
+		})
+	}
+}
+
+// c20ReqDeriv: v is text taken from the client's request (the Request field of the write-control
+// configuration): by slicing, trimming or cutting a prefix (the content is the client's), or
+// through a call that changes the text itself (altered names it: strings.ToUpper, ...).
+func c20ReqDeriv(v ssa.Value, depth int) (from bool, altered string) {
+	if depth > 8 || v == nil {
+		return false, ""
+	}
+	switch x := v.(type) {
+	case *ssa.UnOp:
+		if x.Op != token.MUL {
+			return false, ""
+		}
+		if _, f, _, ok := FieldOf(x); ok && f == "Request" {
+			return true, ""
+		}
+		if rv := resolveCell(x); rv != nil && rv != ssa.Value(x) {
+			return c20ReqDeriv(rv, depth+1)
+		}
+	case *ssa.Slice:
+		return c20ReqDeriv(x.X, depth+1)
+	case *ssa.Extract:
+		if x.Index == 0 {
+			return c20ReqDeriv(x.Tuple, depth+1)
+		}
+	case *ssa.Phi:
+		all, alt := true, ""
+		for _, e := range x.Edges {
+			f, a := c20ReqDeriv(e, depth+1)
+			if !f {
+				all = false
+			}
+			if a != "" {
+				alt = a
+			}
+		}
+		return all && len(x.Edges) > 0, alt
+	case *ssa.Call:
+		name := CalleeName(&x.Call)
+		if !strings.HasPrefix(name, "strings.") || len(x.Call.Args) == 0 {
+			return false, ""
+		}
+		f, a := c20ReqDeriv(x.Call.Args[0], depth+1)
+		switch strings.TrimPrefix(name, "strings.") {
+		case "TrimPrefix", "CutPrefix", "TrimSuffix", "CutSuffix", "TrimSpace", "TrimLeft", "TrimRight", "Trim", "Clone":
+			return f, a
+		}
+		if f && a == "" {
+			a = name
+		}
+		return f, a
+	}
+	return false, ""
+}
+
+// c20IsLabelTest: a branch on whether the request goes on after its keyword: a comparison of the
+// length of the request (or of a part of it), or of a part of it with the empty string.
+func c20IsLabelTest(in ssa.Instruction) bool {
+	iff, ok := in.(*ssa.If)
+	if !ok {
+		return false
+	}
+	bo, ok := iff.Cond.(*ssa.BinOp)
+	if !ok {
+		return false
+	}
+	for _, side := range []ssa.Value{bo.X, bo.Y} {
+		if c, isCall := side.(*ssa.Call); isCall {
+			if b, isB := c.Call.Value.(*ssa.Builtin); isB && b.Name() == "len" {
+				if f, _ := c20ReqDeriv(c.Call.Args[0], 0); f {
+					return true
+				}
+			}
+		}
+		if _, isStr := side.Type().Underlying().(*types.Basic); isStr {
+			if _, isSl := side.(*ssa.Slice); isSl || func() bool { _, e := side.(*ssa.Extract); _, c := side.(*ssa.Call); return e || c }() {
+				if f, _ := c20ReqDeriv(side, 0); f {
+					return true
+				}
+			}
+		}
+	}
+	return false
 }
 
 // c20LabelWriter: the function that records an experiment-state label (it stores the label field
